@@ -37,7 +37,12 @@ from dask_expr._shuffle import (
     _contains_index_name,
     _select_columns_or_index,
 )
-from dask_expr._util import _convert_to_list, _tokenize_deterministic, is_scalar
+from dask_expr._util import (
+    _convert_to_list,
+    _labels_to_list,
+    _tokenize_deterministic,
+    is_scalar,
+)
 
 _HASH_COLUMN_NAME = "__hash_partition"
 _PARTITION_COLUMN = "_partitions"
@@ -510,7 +515,7 @@ class Merge(Expr):
             # Reorder the column projection to
             # occur before the Merge
             columns = determine_column_projection(self, parent, dependents)
-            columns = _convert_to_list(columns)
+            columns = _labels_to_list(columns)
             if isinstance(parent, Index):
                 # Index creates an empty column projection
                 projection, parent_columns = columns, None
